@@ -18,7 +18,8 @@ CLAIMED = {
               "evaluated inside Coq on grid-valued multisets with NaN/inf at every position. Because the spec is "
               "proved to determine the result, every disagreement is a concrete failing input. The two call sites the property "
               "names (the writer's identified-precursor filter, the scoring strategy's peptide counting) are driven with rows "
-              "in file order and match-between-runs NaNs and must end up with the function's value on the plain list."),
+              "in file order and match-between-runs NaNs and must end up with the function's value on the plain list. Lists of 70 000 - 200 000 "
+              "PEPs (beyond what the in-Coq evaluation takes) are checked against the statement in integer arithmetic (monitor only)."),
         note=COMMON_NOTE + "Float running mean assumed exact on the generated grid (argument in evidence.assumptions); "
              "off-grid rounding modelled, not verified. Axioms: none.",
         technique="Coq proof over integer-scaled model + in-Coq (vm_compute) differential correspondence",
@@ -52,7 +53,8 @@ CLAIMED["C06"] = dict(
     design="5/C06")
 
 CLAIMED["C20"] = dict(
-    text=("State-machine model of ProteinGroups (append, extend, merge, remove-empty, re-index, add-unseen; four lookups). "
+    text=("State-machine model of ProteinGroups (append, extend, merge, remove-empty, re-index, add-unseen, and an edit of the group list "
+          "from outside followed by a re-index; four lookups). "
           "Invariant 'a valid index is sound and complete' proved for the initial state and every operation, lifted to every "
           "operation history by fold_left; corollaries: a lookup raises (stale index / unknown key) or returns a group/position "
           "currently containing the protein; a protein in no group is reported missing by every lookup. Correspondence: "
@@ -189,7 +191,8 @@ CLAIMED["C08"] = dict(
           "single-residue protein). The enzyme table is REGENERATED from digest.py's AST on every run and proved well-formed. "
           "Correspondence: get_digested_peptides against the model (set equality) AND the implementation's output against spec_digest "
           "evaluated in Coq (so a disagreement yields a concrete failing sequence), on exhaustive small and random long sequences with "
-          "every enzyme of the table."),
+          "every enzyme of the table; the digest module's own command line (peptide map, iBAQ table and Prosit input in one call) against "
+          "the functions called one by one on fresh parameter objects (main_differential)."),
     note=COMMON_NOTE + "Sequences non-empty, min_len >= 1 (the empty sequence and min_len 0 are outside the theorems; the tool never "
          "digests with min_len 0). Translator for the enzyme table trusted (fail-closed, compared with the runtime dict). Axioms: none.",
     technique="Coq proof for all inputs (loop invariants for full and semi-specific digestion) + in-Coq spec evaluation on the implementation's output",
@@ -235,7 +238,8 @@ CLAIMED["C10"] = dict(
           "two-level parenthesised modifications strip to their residues; the purge leaves all-decoy lists alone and removes decoy "
           "entries from lists with a target; every list the mapper passes on is pure; unknown peptides are skipped; with well-formed "
           "identifiers every subset group is all-target or all-decoy (with C03). Correspondence on generated files of the six "
-          "formats x score types (remap or not, razor), several files with their own maps, plus a Python monitor of the property."),
+          "formats x score types (remap or not, razor), several files with their own maps, Percolator peptides without flanks, with "
+          "'-.X.-', with neighbouring residues 'K.X.A' and mixed (repair D17), plus a Python monitor of the property."),
     note=COMMON_NOTE + "csv splitting, pandas' number parsing (DIA-NN), float(cell), 1-p+1e-16 and 10^x are runtime oracles tabulated "
          "with the same primitives; parquet input and ms2rescore's eval are not modelled. Axioms: none.",
     technique="Coq proof (fold = running minimum; token-level proof of the regex scanner; purity) + file-level differential correspondence for six formats",
